@@ -1019,3 +1019,190 @@ theorem recipeConvert_spec (c : Converter Rat) (to : System) (r : ScaledRecipe R
   exact ⟨trivial, trivial, trivial, trivial, trivial, trivial⟩
 
 end Cook
+
+namespace Cook
+open Arith
+
+/-! ### the standard definitions (hand-written, independent of units.toml) -/
+
+/-- US liquid gallon in litres (231 cubic inches of 2.54 cm) -/
+def stdGal : Rat := 3785411784 / 1000000000
+/-- avoirdupois pound in grams -/
+def stdLb : Rat := 45359237 / 100000
+
+/-- symbol ↦ (ratio to the base unit litre / metre / gram / second / kelvin,
+              offset to add, in the unit's own degrees, before scaling) -/
+def stdDef : List (UStr × Rat × Rat) := [
+  (['l'], 1, 0), (['k','l'], 1000, 0), (['h','l'], 100, 0), (['d','a','l'], 10, 0),
+  (['d','l'], 1/10, 0), (['c','l'], 1/100, 0), (['m','l'], 1/1000, 0),
+  (['t','s','p'], stdGal / 768, 0), (['t','b','s','p'], stdGal / 256, 0),
+  (['f','l',' ','o','z'], stdGal / 128, 0), (['c'], stdGal / 16, 0), (['p','t'], stdGal / 8, 0),
+  (['q','t'], stdGal / 4, 0), (['g','a','l'], stdGal, 0),
+  (['m'], 1, 0), (['k','m'], 1000, 0), (['h','m'], 100, 0), (['d','a','m'], 10, 0),
+  (['d','m'], 1/10, 0), (['c','m'], 1/100, 0), (['m','m'], 1/1000, 0),
+  (['f','t'], 3048/10000, 0), (['i','n'], 254/10000, 0),
+  (['g'], 1, 0), (['k','g'], 1000, 0), (['h','g'], 100, 0), (['d','a','g'], 10, 0),
+  (['d','g'], 1/10, 0), (['c','g'], 1/100, 0), (['m','g'], 1/1000, 0),
+  (['o','z'], stdLb / 16, 0), (['l','b'], stdLb, 0),
+  (['s'], 1, 0), (['m','i','n'], 60, 0), (['h'], 3600, 0), (['d'], 86400, 0),
+  (['°','C'], 1, 27315/100), (['°','F'], 5/9, 45967/100)]
+
+def stdLookup (s : UStr) : Option (Rat × Rat) :=
+  match stdDef.find? (fun e => e.1 = s) with
+  | some e => some e.2
+  | none => none
+
+def stdOf (u : Unit Rat) : Option (Rat × Rat) :=
+  match u.symbol? with
+  | some s => stdLookup s
+  | none => none
+
+/-- `|a - b| ≤ b·k/10⁶` -/
+def relClose (k : Nat) (a b : Rat) : Bool :=
+  decide (Rat.abs (a - b) * 1000000 ≤ Rat.abs b * k)
+
+/-- For every ordered pair of units of one physical quantity that both have a standard
+    definition: the slope `ratio a / ratio b` of the conversion a → b is within 2·10⁻⁶ (relative)
+    of the standard one; and every such unit's ratio (relative to the first unit of its quantity
+    that has a standard definition) and offset are within 10⁻⁶ of the standard ones. -/
+def pairMatchesStd (a b : Unit Rat) : Bool :=
+  match stdOf a, stdOf b with
+  | some sa, some sb => !(decide (a.pq = b.pq)) || relClose 2 (a.ratio / b.ratio) (sa.1 / sb.1)
+  | _, _ => true
+
+def unitMatchesStd (units : List (Unit Rat)) (u : Unit Rat) : Bool :=
+  match stdOf u with
+  | none => true
+  | some su =>
+    relClose 1 u.difference su.2 &&
+    match units.find? (fun u0 => decide (u0.pq = u.pq) && (stdOf u0).isSome) with
+    | none => true
+    | some u0 =>
+      match stdOf u0 with
+      | none => true
+      | some s0 => relClose 1 (u.ratio / u0.ratio) (su.1 / s0.1)
+
+def shippedMatchesStd (units : List (Unit Rat)) : Bool :=
+  units.all (unitMatchesStd units) && units.all (fun a => units.all (fun b => pairMatchesStd a b))
+
+def stdCovered (units : List (Unit Rat)) : Nat := (units.filter (fun u => (stdOf u).isSome)).length
+
+theorem shippedMatchesStd_pair {units : List (Unit Rat)} (h : shippedMatchesStd units = true)
+    {a b : Unit Rat} (ha : a ∈ units) (hb : b ∈ units) (hq : a.pq = b.pq)
+    {sa sb : Rat × Rat} (hsa : stdOf a = some sa) (hsb : stdOf b = some sb) :
+    Rat.abs (a.ratio / b.ratio - sa.1 / sb.1) * 1000000 ≤ Rat.abs (sa.1 / sb.1) * 2 ∧
+    Rat.abs (a.difference - sa.2) * 1000000 ≤ Rat.abs sa.2 := by
+  simp only [shippedMatchesStd, Bool.and_eq_true, List.all_eq_true] at h
+  have h1 := h.2 a ha b hb
+  have h2 := h.1 a ha
+  simp only [pairMatchesStd, hsa, hsb, hq, decide_true, Bool.not_true, Bool.false_or, relClose,
+    decide_eq_true_eq] at h1
+  simp only [unitMatchesStd, hsa, Bool.and_eq_true, relClose, decide_eq_true_eq] at h2
+  refine ⟨by simpa using h1, by simpa using h2.1⟩
+
+end Cook
+
+namespace Cook
+open Arith
+
+/-! ### the failure cases, for every converter (no soundness assumption) -/
+
+theorem convertImpl_noUnit (c : Converter Rat) (q : SQuantity Rat) (to : ConvertTo Rat)
+    (h : q.unit = none) : convertImpl c q to = (q, .error .noUnit) := by
+  unfold convertImpl; simp [h]
+
+theorem convertImpl_unknownUnit (c : Converter Rat) (q : SQuantity Rat) (to : ConvertTo Rat)
+    (k : Str) (h : q.unit = some k) (hf : c.findUnit k = none) :
+    convertImpl c q to = (q, .error (.unknownUnit k)) := by
+  unfold convertImpl; simp [h, hf]
+
+theorem unitInfo_some {c : Converter Rat} {q : SQuantity Rat} {u : Unit Rat}
+    (h : unitInfo c q = some u) : ∃ k, q.unit = some k ∧ c.findUnit k = some u := by
+  unfold unitInfo at h
+  split at h
+  · cases h
+  · rename_i k hk; exact ⟨k, hk, h⟩
+
+theorem convertImpl_text (c : Converter Rat) (q : SQuantity Rat) (to : ConvertTo Rat)
+    (u : Unit Rat) (t : Str) (hu : unitInfo c q = some u) (hv : q.value = .text t) :
+    convertImpl c q to = (q, .error (.textValue t)) := by
+  obtain ⟨k, hk, hf⟩ := unitInfo_some hu
+  unfold convertImpl; simp [hk, hf, hv, ConvertValue.ofValue]
+
+theorem ofValue_ok_of_not_text {v : Value Rat} (h : v.isText = false) :
+    ∃ cv, ConvertValue.ofValue v = .ok cv := by
+  cases v with
+  | number n => exact ⟨_, rfl⟩
+  | range s e => exact ⟨_, rfl⟩
+  | text t => simp [Value.isText] at h
+
+theorem convertImpl_convert_error (c : Converter Rat) (q : SQuantity Rat) (to : ConvertTo Rat)
+    (u : Unit Rat) (cv : ConvertValue Rat) (e : ConvErr) (hu : unitInfo c q = some u)
+    (hv : ConvertValue.ofValue q.value = .ok cv) (he : c.convert cv (.unit u) to = .error e) :
+    convertImpl c q to = (q, .error e) := by
+  obtain ⟨k, hk, hf⟩ := unitInfo_some hu
+  unfold convertImpl; simp [hk, hf, hv, he]
+
+theorem convertImpl_mixed (c : Converter Rat) (q : SQuantity Rat) (u t : Unit Rat)
+    (tu : ConvertUnit Rat) (hu : unitInfo c q = some u) (hv : q.value.isText = false)
+    (ht : c.getUnit tu = .ok t) (hq : u.pq ≠ t.pq) :
+    convertImpl c q (.unit tu) = (q, .error (.mixedQuantities u.pq t.pq)) := by
+  obtain ⟨cv, hcv⟩ := ofValue_ok_of_not_text hv
+  apply convertImpl_convert_error c q _ u cv _ hu hcv
+  unfold Converter.convert
+  simp only [getUnit_unit, ht]
+  rw [convertToUnit_mixed cv u t hq]
+
+theorem convertImpl_unknownTarget (c : Converter Rat) (q : SQuantity Rat) (u : Unit Rat) (k : Str)
+    (hu : unitInfo c q = some u) (hv : q.value.isText = false) (hf : c.findUnit k = none) :
+    convertImpl c q (.unit (.key k)) = (q, .error (.unknownUnit k)) := by
+  obtain ⟨cv, hcv⟩ := ofValue_ok_of_not_text hv
+  apply convertImpl_convert_error c q _ u cv _ hu hcv
+  unfold Converter.convert
+  simp [Converter.getUnit, hf]
+
+theorem convertImpl_noBest (c : Converter Rat) (q : SQuantity Rat) (u : Unit Rat) (s : System)
+    (hu : unitInfo c q = some u) (hv : q.value.isText = false)
+    (he : ((c.best u.pq).conversions s).entries = []) :
+    convertImpl c q (.best s) = (q, .error (.bestUnitNotFound u.pq u.system)) := by
+  obtain ⟨cv, hcv⟩ := ofValue_ok_of_not_text hv
+  apply convertImpl_convert_error c q _ u cv _ hu hcv
+  unfold Converter.convert
+  simp only [getUnit_unit]
+  exact convertToBest_empty c cv u s he
+
+/-- reading a `ConvertOutcome` -/
+theorem ConvertOutcome.ok_inv {c : Converter Rat} {q q' : SQuantity Rat} {to : ConvertTo Rat}
+    (h : ConvertOutcome c q to (q', .ok ())) :
+    ∃ u nu, unitInfo c q = some u ∧ Restated c q u q' nu ∧
+      (∀ s, to = .best s → nu ∈ ((c.best u.pq).conversions s).unitsOf) ∧
+      (to = .sameSystem → nu ∈ ((c.best u.pq).conversions (u.system.getD c.defaultSystem)).unitsOf) ∧
+      (∀ tu, to = .unit tu → c.getUnit tu = .ok nu) := by
+  cases h with
+  | converted _ u nu hu hr hbest hsame hkey => exact ⟨u, nu, hu, hr, hbest, hsame, hkey⟩
+
+theorem ConvertOutcome.error_inv {c : Converter Rat} {q q' : SQuantity Rat} {to : ConvertTo Rat}
+    {e : ConvErr} (h : ConvertOutcome c q to (q', .error e)) : q' = q ∧ ConvertFailure c q to e := by
+  cases h with
+  | failed _ he => exact ⟨rfl, he⟩
+
+theorem FitOutcome.ok_inv {c : Converter Rat} {q q' : SQuantity Rat}
+    (h : FitOutcome c q (q', .ok ())) :
+    (unitInfo c q = none ∧ q' = q) ∨
+    ∃ u nu, unitInfo c q = some u ∧ Restated c q u q' nu ∧
+      (nu ∈ ((c.best u.pq).conversions (u.system.getD c.defaultSystem)).unitsOf
+        ∨ (u.system = none ∧ nu = u)) := by
+  cases h with
+  | unknown h => exact Or.inl ⟨h, rfl⟩
+  | fitted _ u nu hu hr hl => exact Or.inr ⟨u, nu, hu, hr, hl⟩
+
+theorem FitOutcome.error_inv {c : Converter Rat} {q q' : SQuantity Rat} {e : ConvErr}
+    (h : FitOutcome c q (q', .error e)) : q' = q ∧ ConvertFailure c q .sameSystem e := by
+  cases h with
+  | failed _ he => exact ⟨rfl, he⟩
+
+theorem ConvertFailure.not_panic {c : Converter Rat} {q : SQuantity Rat} {to : ConvertTo Rat}
+    {e : ConvErr} (h : ConvertFailure c q to e) (s : PanicSite) : e ≠ .panic s := by
+  cases h <;> simp
+
+end Cook
